@@ -187,6 +187,18 @@ def run(ctx):
         nontrivial = n_ops(t) >= 2 and not real.names
         ctx.distinct((nf.key(), skeleton(t)), nontrivial)
         check_value(t, real, nf, "tree")
+        if rng.random() < 0.04:
+            # a refused call on this very object in between (x ** 2.0, x.root(2.0), x * "m", ...): the ordinary
+            # expressions that follow - the same tree again first of all - must not notice
+            from .. import gen as G
+            ctx.count(f"refused_operations_in_between/{G.refused_operation(rng, m, real)}")
+            try:
+                again = mdl.eval_real(t)
+            except Exception as e:
+                ctx.violation(f"C02:operator-raised:{type(e).__name__}", f"{model.show(t)} raised {type(e).__name__} when evaluated again after a refused operation: {e}", {"term": t})
+                continue
+            if again is not real and not nf.mixed:
+                ctx.violation("C02:same-normal-form-different-objects", f"{model.show(t)} evaluated again after a refused operation is another object", {"term": t})
         if i % 1500 == 7 and nontrivial:
             ctx.sample({"term": model.show(t), "value": str(real), "mixed_base": nf.mixed})
         # the same product in a shuffled evaluation order
